@@ -93,4 +93,91 @@ theorem C05_recover_reject_frame (c : Ctx)
       simp only [hv', Bool.not_false, if_true, M.logf, M.modify]
       exact hresp _ _ _
 
+
+/-! ## Confirmation: the same two statements -/
+
+theorem redirect_store (p ok f fl) (c : Ctx) : (M.redirect p ok f fl c).2.store = c.store := by
+  unfold M.redirect
+  simp only [bind_apply, M.get]
+  cases hj : c.cfg.json
+  · cases ok <;> cases f <;> simp [hj, M.putS, M.act, M.modify, bind_apply, pure_apply]
+  · simp only [hj, if_true, M.render, bind_apply, backend_eq]
+    cases oracle c <;> simp [pure_apply, M.fail, M.stop, M.act, M.modify, tick]
+
+/-- **C05_confirm_reject_frame.** Every rejection path of `confirm.Get` leaves storage exactly
+as it was: nobody is confirmed, no selector is spent. -/
+theorem C05_confirm_reject_frame (c : Ctx)
+    (hrej : c.req.valid = false ∨ c.req.token = none ∨
+      (∃ raw, c.req.token = some raw ∧ raw.length ≠ tokenSize) ∨
+      (∃ raw, c.req.token = some raw ∧ raw.length = tokenSize ∧ oracle c = none ∧
+        ∀ u ∈ c.store.users, ¬ (u.confirmSel = some (raw.take 32) ∧ u.confirmVer = some (raw.drop 32)))) :
+    (confirmGet c).2.store = c.store := by
+  have hred := redirect_store
+  unfold confirmGet
+  simp only [bind_apply, M.get]
+  rcases hrej with hv | ht | ⟨raw, ht, hl⟩ | ⟨raw, ht, hl, ho, hnone⟩
+  · simp only [hv, Bool.not_false, if_true, M.logf, M.modify]
+    exact hred _ _ _ _ _
+  · by_cases hv : c.req.valid = true
+    · simp only [hv, Bool.not_true, Bool.false_eq_true, if_false, ht, M.logf, M.modify]
+      exact hred _ _ _ _ _
+    · have hv' : c.req.valid = false := by simpa using hv
+      simp only [hv', Bool.not_false, if_true, M.logf, M.modify]
+      exact hred _ _ _ _ _
+  · by_cases hv : c.req.valid = true
+    · have hne : (raw.length != tokenSize) = true := by simpa using hl
+      simp only [hv, Bool.not_true, Bool.false_eq_true, if_false, ht, hne, if_true, M.logf, M.modify]
+      exact hred _ _ _ _ _
+    · have hv' : c.req.valid = false := by simpa using hv
+      simp only [hv', Bool.not_false, if_true, M.logf, M.modify]
+      exact hred _ _ _ _ _
+  · by_cases hv : c.req.valid = true
+    · have hne : (raw.length != tokenSize) = false := by simpa using hl
+      simp only [hv, Bool.not_true, Bool.false_eq_true, if_false, ht, hne]
+      rw [bind_apply, backend_eq, ho]
+      simp only []
+      cases hf : c.store.users.find? (fun x => x.confirmSel == some (raw.take 32)) with
+      | none =>
+        simp only [M.logf, M.modify, bind_apply]
+        rw [hred]; rfl
+      | some u =>
+        have hmem := List.mem_of_find?_eq_some hf
+        have hsel : u.confirmSel = some (raw.take 32) := by
+          have := List.find?_some hf; simpa using this
+        have hn := hnone u hmem
+        simp only
+        have hver : u.confirmVer ≠ some (raw.drop 32) := fun h => hn ⟨hsel, h⟩
+        have hvb : (u.confirmVer != some (raw.drop 32)) = true := by simpa using hver
+        simp only [hvb, if_true, M.logf, M.modify, bind_apply]
+        rw [hred]; rfl
+    · have hv' : c.req.valid = false := by simpa using hv
+      simp only [hv', Bool.not_false, if_true, M.logf, M.modify]
+      exact hred _ _ _ _ _
+
+/-- **C05_confirm_accept.** If `confirm.Get` changes storage at all (the storage call itself
+not failing), then the request validated, the token decoded to exactly 64 bytes, and some
+account's stored selector *and* verifier are its two halves — i.e. it is, byte for byte, the
+token that was issued to that account and has not been used. -/
+theorem C05_confirm_accept (c : Ctx) (ho : oracle c = none) (hch : (confirmGet c).2.store ≠ c.store) :
+    c.req.valid = true ∧ ∃ raw u, c.req.token = some raw ∧ raw.length = tokenSize ∧ u ∈ c.store.users ∧
+      u.confirmSel = some (raw.take 32) ∧ u.confirmVer = some (raw.drop 32) := by
+  apply Classical.byContradiction
+  intro hn
+  apply hch
+  apply C05_confirm_reject_frame
+  by_cases hv : c.req.valid = true
+  · right
+    cases ht : c.req.token with
+    | none => exact Or.inl rfl
+    | some raw =>
+      right
+      by_cases hl : raw.length = tokenSize
+      · right
+        refine ⟨raw, rfl, hl, ho, ?_⟩
+        intro u hu hsv
+        exact hn ⟨hv, raw, u, ht, hl, hu, hsv.1, hsv.2⟩
+      · exact Or.inl ⟨raw, rfl, hl⟩
+  · left; simpa using hv
+
+
 end AuthbossModel.M
